@@ -28,6 +28,8 @@ def run(ctx):
     ctx.guard(rule_a, ctx, ix)
     ctx.guard(rule_b, ctx, ix)
     ctx.guard(rule_c, ctx, ix)
+    ctx.guard(rule_d, ctx, ix)
+    ctx.guard(rule_e, ctx, ix)
 
 
 def rule_a(ctx, ix):
@@ -184,3 +186,177 @@ def rule_c(ctx, ix):
     axes = {unparse(kwarg(c, 'world_axis')) for c in calls_in(g.node) if call_name(c) == 'pixel2world_single_axis' and kwarg(c, 'world_axis') is not None}
     ctx.ob(R, g.construct + ' axis', 'every helper call asks for the same (converted) axis', len(axes) == 1,
            detail='the helper is called with world_axis in %s' % sorted(axes), where=g.where)
+
+
+def rule_d(ctx, ix):
+    """Which pixel axes a world axis depends on is decided exactly: the broadcasting shortcuts replace every axis declared
+    independent by a constant, so a small but non-zero coupling must not be declared independent."""
+    R = 'C15.d'
+    ctx.describe(R, 'the dependence table of affine coordinates is the exact non-zero pattern of the linear part', floor=2)
+    ac = ix.cls('glue.core.coordinates.AffineCoordinates')
+    m = ac.resolve('axis_correlation_matrix')
+    if m is None or m.fget is None or m.fget.cls is not ac:
+        raise AnalysisError('AffineCoordinates.axis_correlation_matrix vanished')
+    f = m.fget
+    rets = [r.value for r in returns_of(f) if r.value is not None]
+    if len(rets) != 1:
+        raise AnalysisError('AffineCoordinates.axis_correlation_matrix: return not recognised')
+    e = rets[0]
+    t = unparse(e).replace(' ', '')
+    s = f.self_name
+    exact = t in ('%s._matrix[:-1,:-1]!=0' % s, '(%s._matrix[:-1,:-1]!=0)' % s, '%s._matrix[:-1,:-1].astype(bool)' % s)
+    tolerant = any(isinstance(c, ast.Call) and call_name(c) in ('isclose', 'allclose', 'around', 'round') for c in ast.walk(e)) or \
+        any(isinstance(c, ast.Compare) and isinstance(c.ops[0], (ast.Gt, ast.GtE, ast.Lt, ast.LtE)) for c in ast.walk(e))
+    ctx.idiom(R, f.construct, 'a world axis depends on a pixel axis exactly when the matrix term is non-zero', accepted=exact, absent=tolerant,
+              detail_absent='AffineCoordinates.axis_correlation_matrix decides dependence with a tolerance (`%s`): a small non-zero scale or '
+                            'coupling (a wavelength axis in metres, a pixel scale in radians) is declared independent, and the broadcasting '
+                            'shortcuts then make the world attribute constant along that axis' % unparse(e), shape=unparse(e), where=f.where)
+    ctx.ob(R, f.construct + ' block', 'the table covers the linear part only (last row / column are the translation)', '[:-1,:-1]' in t,
+           detail='AffineCoordinates.axis_correlation_matrix no longer restricts the table to matrix[:-1, :-1]', where=f.where)
+
+
+# ---------------------------------------------------------------------------------------
+# C15.e - index roles of the axis-correlation matrix (rows = world axes, columns = pixel axes)
+HELPERS = 'glue.core.coordinate_helpers'
+# call sites of dependent_axes whose index role cannot be read off a guard: (function, argument) -> (roles, why)
+SITE_ROLES = {
+    ('glue.core.component_link:CoordinateComponentLink.__init__', 'index'):
+        ({'pixel', 'world'}, 'the index of the output: a world axis for pixel->world links, a pixel axis for world->pixel links'),
+    ('glue.viewers.image.viewer:MatplotlibImageMixin._set_wcs', 'ix'): ({'pixel'}, 'x_att is a pixel attribute (PixelComponentID.axis)'),
+    ('glue.viewers.image.viewer:MatplotlibImageMixin._set_wcs', 'iy'): ({'pixel'}, 'y_att is a pixel attribute (PixelComponentID.axis)'),
+    ('glue.core.fixed_resolution_buffer:translate_pixel', 'comp.axis'):
+        ({'world'}, 'pixel attributes returned earlier; the remaining coordinate components are world components'),
+}
+# what the result of dependent_axes is used as at each site: (function) -> (roles, why)
+SITE_RESULT = {
+    'glue.core.component:CoordinateComponent._calculate': ({'pixel'}, 'compared with the dimensions of the pixel grid'),
+    'glue.core.component_link:CoordinateComponentLink.__init__':
+        ({'pixel', 'world'}, 'selects among the input ids: pixel ids for pixel->world links, world ids for world->pixel links'),
+    'glue.core.fixed_resolution_buffer:translate_pixel': ({'pixel'}, 'returned as the dimensions of the data whose pixel coordinates were used'),
+    'glue.viewers.image.viewer:MatplotlibImageMixin._set_wcs': ({'pixel'}, 'compared with the pixel axes shown'),
+    'glue.core.link_manager:is_convertible_to_single_pixel_cid': (set(), 'only the number of dependent axes is used'),
+}
+
+
+def _enclosing_funcs(ix):
+    """(construct, FunctionDef, module) for every function / method of the package (nested functions belong to their outer one)."""
+    out = []
+    for name, mod in sorted(ix.modules.items()):
+        for node in mod.tree.body:
+            if isinstance(node, (ast.FunctionDef, ast.AsyncFunctionDef)):
+                out.append(('%s:%s' % (name, node.name), node, mod))
+            elif isinstance(node, ast.ClassDef):
+                for ch in node.body:
+                    if isinstance(ch, (ast.FunctionDef, ast.AsyncFunctionDef)):
+                        out.append(('%s:%s.%s' % (name, node.name, ch.name), ch, mod))
+    return out
+
+
+def rule_e(ctx, ix):
+    """Indices of pixel axes and of world axes are not confused when the dependence table is consulted."""
+    from ..roles import ModuleRoles
+    R = 'C15.e'
+    ctx.describe(R, 'index roles of the dependence table: parameters are used in the role their callers pass, results in the role '
+                    'their callers need; the inverse direction does not read the forward table as if it were its own', floor=12)
+    mod = ix.module(HELPERS)
+    funcs = {n.name: n for n in mod.tree.body if isinstance(n, ast.FunctionDef)}
+    for need in ('pixel2world_single_axis', 'world2pixel_single_axis', 'dependent_axes'):
+        if need not in funcs:
+            raise AnalysisError('%s.%s vanished' % (HELPERS, need))
+    mr = ModuleRoles(funcs)
+    # (i) parameters that name their role
+    for fname in sorted(funcs):
+        for p in mr.params(fname):
+            decl = 'world' if p == 'world_axis' else ('pixel' if p == 'pixel_axis' else None)
+            if decl is None:
+                continue
+            roles = mr.roles_of(fname, p)
+            if not roles:
+                continue
+            ctx.ob(R, '%s:%s(%s)' % (HELPERS, fname, p), 'the parameter %s indexes %s axes only' % (p, decl), roles == {decl},
+                   detail='%s uses its parameter %s as the index of a %s axis of the dependence table (rows are world axes, columns are '
+                          'pixel axes)' % (fname, p, '/'.join(sorted(roles - {decl}))), where='%s:%d' % (mod.relpath, funcs[fname].lineno))
+    for fname, p in (('pixel2world_single_axis', 'world_axis'), ('world2pixel_single_axis', 'pixel_axis')):
+        if not mr.roles_of(fname, p):
+            raise AnalysisError('%s no longer consults the dependence table with %s' % (fname, p))
+    # (ii) + (iii) call sites of dependent_axes
+    prole = mr.roles_of('dependent_axes', mr.params('dependent_axes')[1])
+    rrole = set()
+    for ks in mr.ret['dependent_axes']:
+        rrole |= {'world' for k in ks if k in ('Wi',)} | {'pixel' for k in ks if k in ('Pi',)}
+    if not prole:
+        raise AnalysisError('dependent_axes: the role of its axis parameter cannot be inferred')
+    nsites = 0
+    for construct, node, m in _enclosing_funcs(ix):
+        if m.name == HELPERS:
+            continue
+        pm = None
+        for c in ast.walk(node):
+            if not (isinstance(c, ast.Call) and call_name(c) == 'dependent_axes' and len(c.args) == 2):
+                continue
+            nsites += 1
+            arg = c.args[1]
+            txt = unparse(arg)
+            roles = None
+            why = ''
+            if isinstance(arg, ast.Attribute) and arg.attr == 'axis':
+                pm = pm or parent_map(node)
+                for g, br in guard_chain(pm, c, node):
+                    if isinstance(g, ast.If) and br == 'body':
+                        t = unparse(g.test)
+                        if t.endswith('.world') or 'world_component_ids' in t:
+                            roles, why = {'world'}, 'guarded by `%s`' % t
+                        elif 'pixel_component_ids' in t:
+                            roles, why = {'pixel'}, 'guarded by `%s`' % t
+                        if roles:
+                            break
+            if roles is None and (construct, txt) in SITE_ROLES:
+                roles, why = SITE_ROLES[(construct, txt)]
+            if roles is None:
+                raise AnalysisError('C15.e: the role of the index `%s` passed to dependent_axes in %s is not known (new call site)' % (txt, construct))
+            ctx.ob(R, '%s dependent_axes(%s)' % (construct, txt),
+                   'the index passed (%s: %s) is used by dependent_axes in that role' % ('/'.join(sorted(roles)), why), roles <= prole,
+                   detail='%s passes the index of a %s axis (`%s`: %s) to dependent_axes, which uses it as the index of a %s axis of the '
+                          'dependence table: for coordinates whose dependence pattern is not symmetric (permuted or sheared axes) the '
+                          'wrong axes are treated as independent and replaced by a constant'
+                          % (construct, '/'.join(sorted(roles - prole)), txt, why, '/'.join(sorted(prole))), where='%s:%d' % (m.relpath, c.lineno))
+            if construct not in SITE_RESULT:
+                raise AnalysisError('C15.e: the use of the result of dependent_axes in %s is not classified (new call site)' % construct)
+            needr, whyr = SITE_RESULT[construct]
+            if needr:
+                ctx.ob(R, '%s dependent_axes(%s) result' % (construct, txt),
+                       'the axes returned are indices of the role the caller uses them in (%s: %s)' % ('/'.join(sorted(needr)), whyr), needr <= rrole,
+                       detail='%s uses the result of dependent_axes as indices of %s axes (%s), but dependent_axes returns indices of %s axes'
+                              % (construct, '/'.join(sorted(needr - rrole)), whyr, '/'.join(sorted(rrole)) or 'unknown role'),
+                       where='%s:%d' % (m.relpath, c.lineno))
+    if nsites < 5:
+        raise AnalysisError('C15.e: only %d call sites of dependent_axes found' % nsites)
+    # (iv) forward table read in the inverse direction
+    for fname, dep_kind, direct_ok, what in (('pixel2world_single_axis', 'Pv', True, 'pixel inputs a world axis depends on: its row of the table'),
+                                             ('world2pixel_single_axis', 'Wv', False, 'world inputs a pixel axis depends on: not its column '
+                                              '(the table says which pixel axes each WORLD axis depends on) but every world axis coupled to it')):
+        f = funcs[fname]
+        deps = [v for v, ks in mr.env[fname].items() if dep_kind in ks and
+                any(isinstance(s_, ast.Subscript) and isinstance(s_.value, ast.Name) and s_.value.id == v and isinstance(pmx, ast.If)
+                    for pmx in ast.walk(f) if isinstance(pmx, ast.If) for s_ in ast.walk(pmx.test))]
+        if len(deps) != 1:
+            raise AnalysisError('%s: the vector deciding which inputs are replaced by a constant is not recognised (%s)' % (fname, deps))
+        v = deps[0]
+        direct = v in mr.direct[fname]
+        via_closure = False
+        for st in walk_no_nested(f):
+            if isinstance(st, ast.Assign) and any(isinstance(t, ast.Name) and t.id == v for t in st.targets):
+                for c in ast.walk(st.value):
+                    if isinstance(c, ast.Call) and isinstance(c.func, ast.Name) and c.func.id in funcs and \
+                            any(isinstance(w, ast.While) for w in ast.walk(funcs[c.func.id])):
+                        via_closure = True
+        if direct_ok:
+            ctx.idiom(R, '%s:%s %s' % (HELPERS, fname, v), what, accepted=direct or via_closure, absent=False, detail_absent='', shape=v,
+                      where='%s:%d' % (mod.relpath, f.lineno))
+        else:
+            ctx.idiom(R, '%s:%s %s' % (HELPERS, fname, v), what, accepted=via_closure and not direct, absent=direct,
+                      detail_absent='%s decides which world inputs may be replaced by a constant from the column of the forward table '
+                                    '(`%s`): the table lists the pixel axes each world axis depends on, and its column is not the set of '
+                                    'world axes a pixel axis depends on - for a sheared (triangular) matrix a needed world coordinate is '
+                                    'frozen at its first value and world-to-pixel no longer undoes pixel-to-world'
+                                    % (fname, norm(mr.direct[fname][v][0]) if direct else ''), shape=v, where='%s:%d' % (mod.relpath, f.lineno))
